@@ -38,6 +38,8 @@
 
 pub(crate) mod closest;
 pub(crate) mod fixed;
+#[cfg(libp2p_verif)]
+pub mod verif_c39;
 use std::borrow::Cow;
 
 use libp2p_identity::PeerId;
